@@ -78,6 +78,7 @@ class RealContainers:
         self.poss = {}
         self.only_lt = only_lt
         self.rand = _Rand()
+        self.kept = {}
 
     # -- helpers
     def P(self, v: int):
@@ -256,6 +257,22 @@ class RealContainers:
             return "ok"
         if op == "iter":
             return "list " + ",".join(str(o) for o in q)
+        if op == "iteropen":
+            # an iteration advanced k steps and then kept alive (a `for` loop left by `break` whose
+            # iterator is still referenced, a body that awaits): the queue must not care
+            it = iter(q)
+            got = []
+            for _ in range(int(a[1])):
+                try:
+                    got.append(next(it))
+                except StopIteration:
+                    break
+            self.kept.setdefault(i, []).append(it)
+            return "list " + ",".join(str(o) for o in got)
+        if op == "iterclose":
+            for it in self.kept.pop(i, []):
+                it.close()
+            return "ok"
         if op == "len":
             return f"n {len(q)}"
         if op == "bool":
